@@ -261,6 +261,9 @@ _MEM_RANGES = {
     "return": lambda a: [(a[0], a[1])], "revert": lambda a: [(a[0], a[1])],
 }
 MEM_LIMIT = 2**32
+# sizes the environment reports (msize, code sizes, return-data sizes) are assumed below 2**24 bytes: 16 MiB of memory already cost
+# more gas (2**29) than any block provides, so sums of a few of them stay far below MEM_LIMIT and never hit the halt artificially
+ENV_SIZE_BOUND = 2**24
 
 
 def mem_out_of_gas(op, a):
@@ -335,7 +338,7 @@ def exec_op(op, a, w):
         # (memory expansion cost) and at least the end of every byte this path wrote at a concrete address
         ms = z3.BitVec(f"msize!{w.ngas + 1}{env.tag}", 256)
         lo = ((max(w.mem.cw) + 32) // 32) * 32 if w.mem.cw else 0
-        for fact in (z3.ULT(ms, BV(2**32)), ms & BV(31) == 0, z3.UGE(ms, BV(lo))):
+        for fact in (z3.ULT(ms, BV(ENV_SIZE_BOUND)), ms & BV(31) == 0, z3.UGE(ms, BV(lo))):
             env.assumptions.append(fact)
         return ms, w.replace(ngas=w.ngas + 1, pc=z3.And(w.pc, z3.UGE(ms, BV(lo))))
     if op == "pc":
@@ -344,7 +347,7 @@ def exec_op(op, a, w):
         return env.balance(a[0]), w
     if op == "extcodesize":
         sz = env.extcodesize(a[0])
-        fact = z3.ULT(sz, BV(2**32))  # code sizes are bounded (EIP-170: 24576 bytes; any gas limit keeps them far below 2**32)
+        fact = z3.ULT(sz, BV(ENV_SIZE_BOUND))  # code sizes are bounded (EIP-170: 24576 bytes; any gas limit keeps them far below 2**32)
         if not any(fact.eq(x) for x in env.assumptions):
             env.assumptions.append(fact)
         return sz, w
@@ -420,8 +423,8 @@ def exec_op(op, a, w):
             w2 = w2.replace(storage=z3.Array("storage_after_call" + k, W, W), transient=z3.Array("transient_after_call" + k, W, W))
         # copy min(rl, rsize) bytes of return data to memory
         cnt = z3.If(z3.ULT(rsize, bv(rl)), rsize, bv(rl))
-        env.assumptions.append(z3.ULT(rsize, BV(MEM_LIMIT)))  # return data is produced in the callee's memory: bounded like memory
-        w2 = w2.replace(mem=w2.mem.copy_from(bv(ro), lambda i: z3.Select(rdata, i), cnt), pc=z3.And(w2.pc, z3.ULT(rsize, BV(MEM_LIMIT))))
+        env.assumptions.append(z3.ULT(rsize, BV(ENV_SIZE_BOUND)))  # return data is produced in the callee's memory: bounded like memory
+        w2 = w2.replace(mem=w2.mem.copy_from(bv(ro), lambda i: z3.Select(rdata, i), cnt), pc=z3.And(w2.pc, z3.ULT(rsize, BV(ENV_SIZE_BOUND))))
         return ok, w2
     if op in ("create", "create2"):
         k = f"!{w.ncalls + 1}{env.tag}"
